@@ -229,7 +229,7 @@ func (t *Taint) scan(fn *ssa.Function, cg *CallGraph) {
 
 // sliceShape describes how an append/copy/sort operand relates to a tainted slice.
 type sliceShape struct {
-	tainted bool
+	tainted  bool
 	resliced bool // obtained through a slice expression with an upper bound (length may shrink)
 	clipped  bool // the slice expression caps capacity at its length (s[:i:i])
 }
